@@ -235,3 +235,4 @@ End Walk.
 Definition walk_ser_obs (t : ty) (v : val) (buf : list bool) (cap_bytes : nat) : res (list bool) := walk_ser ref_prims t v buf cap_bytes.
 Definition ser_obs_spec (t : ty) (v : val) (cap_bytes : nat) : res (list bool) := ser_spec t v cap_bytes.
 Definition walk_des_obs (t : ty) (bytes : list N) : res (val * nat) := walk_des ref_prims t (bits_of_bytes bytes).
+Definition walk_des_bits (t : ty) (bits : list bool) : res (val * nat) := walk_des ref_prims t bits.
